@@ -28,9 +28,13 @@ def build(case):
     B = case.get("B", 16)
     rng = random.Random(case["seed"] * 7919 + 13)
     net = scenario.random_net(rng, allow_small_pipe=case.get("small_pipe", True))
+    if case["script"] == "stalled_reader":
+        # narrow pipes: the file exceeds what network and transport buffer, so that the transfer
+        # worker is blocked in a write with unsent bytes while the cuts are placed
+        net["capacity"], net["high_water"] = rng.choice([(64, 64), (256, 128), (7, 100)])
     if case.get("net"):
         net.update(case["net"])
-    S = corpus.scripts(B)
+    S = {**corpus.scripts(B), **corpus.extra_scripts(B)}
     tree = {}
     sessions = []
     names = [case["script"]] + list(case.get("others") or ())
@@ -240,7 +244,7 @@ def main(argv=None):
     quick = a.tier == "quick"
     ev = common.Evidence(PROP, a.tier, a.seed, "fault_enumeration", "every corpus script x every network event index k x cut kind, re-executed deterministically with the fault placed at event k; a run is non-trivial when the fault actually fired; distinct = distinct run digests (hash of the full network event log, backend call log and transcripts)")
     rep = common.Reporter(PROP, ev)
-    names = sorted(corpus.scripts())
+    names = sorted({**corpus.scripts(), **corpus.extra_scripts()})
     seeds = [a.seed * 1000 + i for i in range(1 if quick else 6)]
     budget = a.budget or (100 if quick else 1500)
     deadline = time.time() + budget
@@ -273,8 +277,10 @@ def main(argv=None):
         # focused sub-sweep that the quick tier always runs in full: the QUIT window (every cut
         # position in the last events of the scripts that end with QUIT), where the server is
         # inside `await response_queue.join()` and no longer watches its tasks
-        S = corpus.scripts()
+        S = {**corpus.scripts(), **corpus.extra_scripts()}
         focus = [c for c in plan if S[c["script"]][-1][0] == "quit" and c["cut"] in ("vanish_rst", "ctl_rst", "ctl_fin") and c["k"] >= npilot_events.get((c["script"], c["seed"]), 0) - 14]
+        # and the download whose peer never reads: control-only cuts and shutdown at every event
+        focus += [c for c in plan if c["script"] == "stalled_reader" and c["cut"] in ("ctl_rst", "ctl_fin", "server_close")]
         # step-granular sub-sweep: Server.close() at every event-loop step of the connect / greeting
         # / login window (a connection accepted but whose dispatcher has not started yet is
         # unknown to close())
@@ -317,7 +323,7 @@ def selftest_cases(n):
     import random
 
     r = random.Random(4242)
-    names = sorted(corpus.scripts())
+    names = sorted({**corpus.scripts(), **corpus.extra_scripts()})
     out = []
     for i in range(n):
         c = {"script": r.choice(names), "seed": r.randrange(10**6), "cut": r.choice(CUTS), "k": r.randrange(1, 60)}
